@@ -118,6 +118,9 @@ def check(ctx: Ctx) -> None:
     if not ok:
         ctx.violation('C14.b', 'JakesSampleGenerator', 'unexpected writers of _current_time: %s' % sorted(writers), FG,
                       cls.node.lineno, operand='writers')
+    from ..dsf import auto_memo_check
+    ctx.rule('C14.d', 'no auto-discovered lazily filled cache of the classes in the anchored modules can be stale at the exit of a public method (dependencies = what the fill expression reads, incl. mutating calls on held sub-objects)', floor=3)
+    auto_memo_check(ctx, 'C14.d', [FG])
     # ------------------------------------------------------------------ C14.c
     ctx.rule('C14.c', 'DSF: per-ray phases follow the configured shape', floor=10)
     analyse_class(ctx, 'C14.c', JAKES, 'JakesSampleGenerator')
